@@ -372,7 +372,7 @@ impl Modelled for TrS {
 }
 
 /// Zero-sized in memory, but one index byte on the wire.
-#[derive(Encode, Decode, DecodeWithMemTracking, Clone, Copy, Debug, PartialEq, Default)]
+#[derive(Encode, Decode, DecodeWithMemTracking, Clone, Copy, Debug, PartialEq, Eq, PartialOrd, Ord, Default)]
 pub enum Unit1 {
     #[default]
     Only,
